@@ -97,6 +97,10 @@ def gen_image(ch, galactic=False, small=False):
     spec["bpa"] = (0.0, 30.0, -60.0)[ch.draw("bpa", 3)] if spec["beam_ratio"] != 1.0 else 0.0
     spec["float64"] = bool(ch.chance("float64", 1, 5))
     spec["cube"] = bool(ch.chance("cube", 1, 8))
+    # how the finder learns the beam and the noise/background: beam from the header or as a parameter (header without
+    # BMAJ/BMIN), noise/background forced as numbers or read from (constant) map files
+    spec["beam_param"] = bool(ch.chance("beam_param", 1, 6))
+    spec["aux_files"] = bool(ch.chance("aux_files", 1, 5))
     spec["noise_seed"] = ch.draw("noise_seed", 1 << 20)
     spec["noise"] = 1.0 if not ch.chance("noiseless", 1, 8) else 0.02
     rows, cols = spec["rows"], spec["cols"]
@@ -187,15 +191,40 @@ def write_image(spec, path):
         h["CD1_1"], h["CD1_2"], h["CD2_1"], h["CD2_2"] = -pix, 0.0, 0.0, pix
     else:
         h["CDELT1"], h["CDELT2"] = -pix, pix
-    h["BMAJ"] = spec["beam_pix"] * pix * spec.get("beam_ratio", 1.0)
-    h["BMIN"] = spec["beam_pix"] * pix
-    h["BPA"] = spec.get("bpa", 0.0)
+    if not spec.get("beam_param"):
+        h["BMAJ"] = spec["beam_pix"] * pix * spec.get("beam_ratio", 1.0)
+        h["BMIN"] = spec["beam_pix"] * pix
+        h["BPA"] = spec.get("bpa", 0.0)
     if spec.get("cube"):
         h["CTYPE3"], h["CRVAL3"], h["CRPIX3"], h["CDELT3"] = "FREQ", 1.0e9, 1.0, 1.0e6
     h["BUNIT"] = "Jy/beam"
     h["EQUINOX"] = 2000.0
     hdu.writeto(path, overwrite=True)
+    if spec.get("aux_files"):
+        # constant noise / background maps with the image's header, next to the image
+        plane = np.zeros((spec["rows"], spec["cols"]), dtype=np.float32)
+        for suffix, value in (("_rms.fits", spec["noise"]), ("_bkg.fits", 0.0)):
+            aux = fits.PrimaryHDU(plane + np.float32(value))
+            for key in ("CTYPE1", "CTYPE2", "CRVAL1", "CRVAL2", "CRPIX1", "CRPIX2"):
+                aux.header[key] = h[key]
+            aux.writeto(path[:-5] + suffix, overwrite=True)
     return path
+
+
+def finder_kwargs(spec, path):
+    """Keyword arguments that tell the finder the beam and the noise/background for this image."""
+    kw = {}
+    pix = spec["pix_arcsec"] / 3600.0
+    if spec.get("beam_param"):
+        # a Beam object, as the command line front end passes it (the docstring of find_sources_in_image speaks of a
+        # tuple, load_globals of a Beam; only the latter works)
+        from AegeanTools.wcs_helpers import Beam
+        kw["beam"] = Beam(spec["beam_pix"] * pix * spec.get("beam_ratio", 1.0), spec["beam_pix"] * pix, spec.get("bpa", 0.0))
+    if spec.get("aux_files"):
+        kw["rmsin"], kw["bkgin"] = path[:-5] + "_rms.fits", path[:-5] + "_bkg.fits"
+    else:
+        kw["rms"], kw["bkg"] = spec["noise"], 0.0
+    return kw
 
 
 # ------------------------------------------------------------------------------------------
